@@ -49,7 +49,11 @@ func (p *protocolV2) IOLoop(c protocol.Client) error {
 	// and avoid a potential race with IDENTIFY (where a client
 	// could have changed or disabled said attributes)
 	messagePumpStartedChan := make(chan bool)
-	go p.messagePump(client, messagePumpStartedChan)
+	messagePumpDoneChan := make(chan struct{})
+	go func() {
+		p.messagePump(client, messagePumpStartedChan)
+		close(messagePumpDoneChan)
+	}()
 	<-messagePumpStartedChan
 
 	for {
@@ -114,6 +118,13 @@ func (p *protocolV2) IOLoop(c protocol.Client) error {
 
 	p.nsqd.logf(LOG_INFO, "PROTOCOL(V2): [%s] exiting ioloop", client)
 	close(client.ExitChan)
+	// The pump may have just taken a message from the channel. Let it finish
+	// (the message is registered in flight, from where a requeue or the
+	// shutdown flush picks it up) before this connection counts as gone;
+	// closing the connection first unblocks a pump that is writing to a peer
+	// that does not read.
+	client.Close()
+	<-messagePumpDoneChan
 	if client.Channel != nil {
 		client.Channel.RemoveClient(client.ID)
 	}
